@@ -7,8 +7,41 @@
 #[macro_use]
 mod gen_table;
 pub mod ref_xoshiro;
+pub mod ref_hc128;
+pub mod ref_jitter;
+pub mod ref_isaac;
 
 #[cfg(kani)]
 pub mod c01;
 #[cfg(kani)]
 pub mod c04;
+#[cfg(kani)]
+pub mod c05;
+#[cfg(kani)]
+pub mod c06;
+#[cfg(kani)]
+pub mod c07;
+#[cfg(kani)]
+pub mod c05_block;
+#[cfg(kani)]
+pub mod c08;
+#[cfg(kani)]
+pub mod c10;
+#[cfg(kani)]
+pub mod src_rng;
+#[cfg(kani)]
+pub mod c02;
+#[cfg(kani)]
+pub mod c03;
+#[cfg(kani)]
+pub mod c17;
+#[cfg(kani)]
+pub mod c19;
+#[cfg(kani)]
+pub mod hc;
+#[cfg(kani)]
+pub mod jit;
+#[cfg(all(kani, feature = "serde"))]
+pub mod c11;
+#[cfg(all(kani, feature = "serde"))]
+pub mod tape;
